@@ -28,7 +28,7 @@ RULE = (
     "array coming back as float) is not judged here - C05 judges kinds. Persistence of a definition is judged against a pinned list of names."
 )
 TOLERANCES = {"recomputed_rel": 1e-9}
-FLOORS = {"quick": {"law.resave-in-a-fresh-process": 3, "workload.blueprints-state-assembly-parameters": 5, "op.assembly-state-after-blueprint-value": 10, "law.second-write-to-a-written-node": 2, "law.roundtrip-labelled-state-point": 4, "law.roundtrip-labelled-state-point/layout-differs-from-plain-node": 3, "law.roundtrip": 12, "law.load-twice": 12, "law.idempotent": 6, "law.roundtrip-later-node": 8, "nodes.compared": 3000,
+FLOORS = {"quick": {"law.resave-in-a-fresh-process": 2, "workload.blueprints-state-assembly-parameters": 5, "op.assembly-state-after-blueprint-value": 10, "law.second-write-to-a-written-node": 2, "law.roundtrip-labelled-state-point": 4, "law.roundtrip-labelled-state-point/layout-differs-from-plain-node": 3, "law.roundtrip": 12, "law.load-twice": 12, "law.idempotent": 6, "law.roundtrip-later-node": 8, "nodes.compared": 3000,
                     "law.roundtrip/thrz": 1, "history.third-core-with-edge-assemblies": 1, "loaded-tree.parent-links": 10000, "loaded-tree.core-lookups": 1500,
                     "persistence.definitions-pinned": 3000, "workload.nodefault-column-fully-assigned": 12,
                     "classify.recomputed-judged-against-original": 2500},
@@ -930,6 +930,13 @@ def roundtrip(rec, rng, r, cs, bp, w, kind):
             except OSError:
                 pass
     except Exception as e:
+        import traceback as _tb
+
+        if isinstance(e, ValueError) and "inhomogeneous shape" in str(e) and "jaggedArray.py" in "".join(_tb.format_tb(e.__traceback__)):
+            # armi's documented refusal to write a column whose entries have differing numbers of dimensions (a history that gave one
+            # table parameter a vector on some blocks and a table on others): nothing is written, nothing to compare (C05 judges refusals)
+            rec.reject("write refused: a parameter column holds entries of differing numbers of dimensions")
+            return
         rec.crash("roundtrip/" + kind, e, w)
 
 
